@@ -86,35 +86,44 @@ structure ParsedIn where
 
 def maxCol (cols : List (String × Nat)) : Nat := cols.foldl (fun m p => max m p.2) 0
 
+/-- a validation step: `if ¬ c then raise` (written as a bind step so that the constructors stay linear) -/
+def ensure (c : Bool) (msg : String) : Except String Unit := if c then .ok () else .error msg
+def ofOpt {α} (o : Option α) (msg : String) : Except String α := match o with | some a => .ok a | none => .error msg
+/-- an optional numeric argument, when given, must satisfy `p` -/
+def optAll (o : Option Int) (p : Int → Bool) (msg : String) : Except String Unit := ensure (o.all p) msg
+
 def mkInRow (cfg : Config) (asset : String) (acct : String → String → Nat) (r : Nat) (row : List Cell) : Except String ParsedIn := do
-  if row.length ≤ maxCol cfg.inCols then throw "row too short"
+  ensure (decide (maxCol cfg.inCols < row.length)) "row too short"
   let price ← numArg cfg.inCols row "spot_price"
   let cin ← numArg cfg.inCols row "crypto_in"
   let cfee ← numArg cfg.inCols row "crypto_fee"
   let fnf ← numArg cfg.inCols row "fiat_in_no_fee"
   let fwf ← numArg cfg.inCols row "fiat_in_with_fee"
   let ffee ← numArg cfg.inCols row "fiat_fee"
-  let a ← strArg cfg.inCols row "asset"; known cfg.assets a "asset"
+  let a ← strArg cfg.inCols row "asset"
+  known cfg.assets a "asset"
   let ts ← tsArg cfg.inCols row
   let typS ← strArg cfg.inCols row "transaction_type"
-  let typ ← match TxType.ofString? typS.toLower with | some t => pure t | none => throw "bad type"
+  let typ ← ofOpt (TxType.ofString? typS.toLower) "bad type"
   let price ← needNum "spot_price" price
-  if price < 0 then throw "negative price"
+  ensure (decide (0 ≤ price)) "negative price"
   notesOk cfg.inCols row
-  let ex ← strArg cfg.inCols row "exchange"; known cfg.exchanges ex "exchange"
-  let ho ← strArg cfg.inCols row "holder"; known cfg.holders ho "holder"
+  let ex ← strArg cfg.inCols row "exchange"
+  known cfg.exchanges ex "exchange"
+  let ho ← strArg cfg.inCols row "holder"
+  known cfg.holders ho "holder"
   let cin ← needNum "crypto_in" cin
-  if typ ≠ .staking && cin ≤ 0 then throw "crypto_in not positive"
+  ensure (decide (typ = .staking) || decide (0 < cin)) "crypto_in not positive"
+  ensure (decide (0 ≤ (optNum cfee).getD 0)) "negative crypto_fee"
+  ensure (decide (0 ≤ (optNum ffee).getD 0)) "negative fiat_fee"
+  ensure (decide (price ≠ 0)) "zero price"
+  ensure (!((optNum cfee).isSome && (optNum ffee).isSome)) "both fees"
+  optAll (optNum fnf) (fun v => decide (0 < v)) "fiat_in_no_fee"
+  optAll (optNum fwf) (fun v => decide (0 < v)) "fiat_in_with_fee"
+  ensure (decide (typ = .buy) || decide (typ = .gift) || decide (typ = .donate) || typ.isEarn) "type not allowed in IN"
+  ensure (decide (a = asset)) "asset differs from sheet"
   let cfeeV := (optNum cfee).getD 0
-  if cfeeV < 0 then throw "negative crypto_fee"
   let ffeeV := (optNum ffee).getD 0
-  if ffeeV < 0 then throw "negative fiat_fee"
-  if price = 0 then throw "zero price"
-  if (optNum cfee).isSome && (optNum ffee).isSome then throw "both fees"
-  match optNum fnf with | some v => if v ≤ 0 then throw "fiat_in_no_fee" | none => pure ()
-  match optNum fwf with | some v => if v ≤ 0 then throw "fiat_in_with_fee" | none => pure ()
-  if !(typ = .buy || typ = .gift || typ = .donate || typ.isEarn) then throw "type not allowed in IN"
-  if a ≠ asset then throw "asset differs from sheet"
   -- fiat fee: converted crypto fee if only the crypto fee is given
   let fiatFee : Rat := if (optNum cfee).isSome && (optNum ffee).isNone then dmul (ofUnits cfeeV) (ofUnits price) else ofUnits ffeeV
   let fiatNoFee : Rat := match optNum fnf with | some v => ofUnits v | none => dmul (ofUnits cin) (ofUnits price)
@@ -123,60 +132,63 @@ def mkInRow (cfg : Config) (asset : String) (acct : String → String → Nat) (
          exch := ex, holder := ho, cryptoFee := cfeeV }
 
 def mkOutRow (cfg : Config) (asset : String) (acct : String → String → Nat) (r : Nat) (row : List Cell) : Except String OutTx := do
-  if row.length ≤ maxCol cfg.outCols then throw "row too short"
+  ensure (decide (maxCol cfg.outCols < row.length)) "row too short"
   let price ← numArg cfg.outCols row "spot_price"
   let onf ← numArg cfg.outCols row "crypto_out_no_fee"
   let fee ← numArg cfg.outCols row "crypto_fee"
   let owf ← numArg cfg.outCols row "crypto_out_with_fee"
   let fnf ← numArg cfg.outCols row "fiat_out_no_fee"
   let ffee ← numArg cfg.outCols row "fiat_fee"
-  let a ← strArg cfg.outCols row "asset"; known cfg.assets a "asset"
+  let a ← strArg cfg.outCols row "asset"
+  known cfg.assets a "asset"
   let ts ← tsArg cfg.outCols row
   let typS ← strArg cfg.outCols row "transaction_type"
-  let typ ← match TxType.ofString? typS.toLower with | some t => pure t | none => throw "bad type"
+  let typ ← ofOpt (TxType.ofString? typS.toLower) "bad type"
   let price ← needNum "spot_price" price
-  if price < 0 then throw "negative price"
+  ensure (decide (0 ≤ price)) "negative price"
   notesOk cfg.outCols row
-  let ex ← strArg cfg.outCols row "exchange"; known cfg.exchanges ex "exchange"
-  let ho ← strArg cfg.outCols row "holder"; known cfg.holders ho "holder"
+  let ex ← strArg cfg.outCols row "exchange"
+  known cfg.exchanges ex "exchange"
+  let ho ← strArg cfg.outCols row "holder"
+  known cfg.holders ho "holder"
   let onf ← needNum "crypto_out_no_fee" onf
   let fee ← needNum "crypto_fee" fee
-  if typ = .fee then
-    if onf ≠ 0 then throw "fee with amount"
-    if fee ≤ 0 then throw "fee not positive"
-  else
-    if price = 0 then throw "zero price"
-    if onf ≤ 0 then throw "amount not positive"
-    if fee < 0 then throw "negative fee"
-  match optNum owf with | some v => if v ≤ 0 then throw "crypto_out_with_fee" | none => pure ()
-  match optNum fnf with | some v => if v ≤ 0 then throw "fiat_out_no_fee" | none => pure ()
-  match optNum ffee with | some v => if v < 0 then throw "fiat_fee" | none => pure ()
-  if !(typ = .donate || typ = .fee || typ = .gift || typ = .lost || typ = .sell || typ = .staking) then throw "type not allowed in OUT"
-  if a ≠ asset then throw "asset differs from sheet"
+  -- a fee-typed disposal has no amount and a positive fee; every other type needs a price, a positive amount, a non-negative fee
+  ensure (if typ = .fee then decide (onf = 0) && decide (0 < fee) else decide (price ≠ 0) && decide (0 < onf) && decide (0 ≤ fee)) "amounts"
+  optAll (optNum owf) (fun v => decide (0 < v)) "crypto_out_with_fee"
+  optAll (optNum fnf) (fun v => decide (0 < v)) "fiat_out_no_fee"
+  optAll (optNum ffee) (fun v => decide (0 ≤ v)) "fiat_fee"
+  ensure (decide (typ = .donate) || decide (typ = .fee) || decide (typ = .gift) || decide (typ = .lost) || decide (typ = .sell) || decide (typ = .staking)) "type not allowed in OUT"
+  ensure (decide (a = asset)) "asset differs from sheet"
   pure (mkOut r ts (acct ex ho) typ price onf fee (optNum owf) (optNum fnf) (optNum ffee))
 
 def mkIntraRow (cfg : Config) (asset : String) (acct : String → String → Nat) (r : Nat) (row : List Cell) : Except String IntraTx := do
-  if row.length ≤ maxCol cfg.intraCols then throw "row too short"
+  ensure (decide (maxCol cfg.intraCols < row.length)) "row too short"
   let price ← numArg cfg.intraCols row "spot_price"
   let sent ← numArg cfg.intraCols row "crypto_sent"
   let recv ← numArg cfg.intraCols row "crypto_received"
   let sent ← needNum "crypto_sent" sent
-  if sent ≤ 0 then throw "sent not positive"
+  ensure (decide (0 < sent)) "sent not positive"
   let recv ← needNum "crypto_received" recv
-  if recv < 0 then throw "negative received"
-  let priceV ← match optNum price with
-    | some p => if p = 0 then (if sent - recv = 0 then pure 0 else throw "fee without price") else pure p
-    | none => if sent - recv = 0 then pure 0 else throw "fee without price"
-  let a ← strArg cfg.intraCols row "asset"; known cfg.assets a "asset"
+  ensure (decide (0 ≤ recv)) "negative received"
+  -- a missing or zero spot price is allowed only for a fee-less transfer
+  ensure (decide ((optNum price).getD 0 ≠ 0) || decide (sent - recv = 0)) "fee without price"
+  let priceV := (optNum price).getD 0
+  let a ← strArg cfg.intraCols row "asset"
+  known cfg.assets a "asset"
   let ts ← tsArg cfg.intraCols row
-  if priceV < 0 then throw "negative price"
+  ensure (decide (0 ≤ priceV)) "negative price"
   notesOk cfg.intraCols row
-  let fe ← strArg cfg.intraCols row "from_exchange"; known cfg.exchanges fe "exchange"
-  let fh ← strArg cfg.intraCols row "from_holder"; known cfg.holders fh "holder"
-  let te ← strArg cfg.intraCols row "to_exchange"; known cfg.exchanges te "exchange"
-  let th ← strArg cfg.intraCols row "to_holder"; known cfg.holders th "holder"
-  if sent < recv then throw "received more than sent"
-  if a ≠ asset then throw "asset differs from sheet"
+  let fe ← strArg cfg.intraCols row "from_exchange"
+  known cfg.exchanges fe "exchange"
+  let fh ← strArg cfg.intraCols row "from_holder"
+  known cfg.holders fh "holder"
+  let te ← strArg cfg.intraCols row "to_exchange"
+  known cfg.exchanges te "exchange"
+  let th ← strArg cfg.intraCols row "to_holder"
+  known cfg.holders th "holder"
+  ensure (decide (recv ≤ sent)) "received more than sent"
+  ensure (decide (a = asset)) "asset differs from sheet"
   pure (mkIntra r ts (acct fe fh) (acct te th) priceV sent recv)
 
 structure PState where
